@@ -188,9 +188,12 @@ func c10Rep(c string, n int) string {
 // (text, JSON records, dry-run report: a permutation of whole per-root blocks; walk: same rows, order kept inside
 // a root; mkdir: same file-system state; verify: same verdict).
 func VerifC10() {
-	n := verifN()
+	n := verifN() % 10
 	doc := c10Document(n, verifName, true, -1)
-	mode := verifChoose("mode", 0, 5)
+	mode := uint(0) // verifN() >= 10: text output only (used for the additional scheduling policies)
+	if verifN() < 10 {
+		mode = verifChoose("mode", 0, 5)
+	}
 	nodes, roots := []vNode(nil), []int(nil)
 	if !doc.bad {
 		nodes, roots = specForest(doc.lines)
